@@ -21,7 +21,7 @@ INV = {
     'C12': ['Inv_C12_InformerIffOwned', 'Inv_C12_HandlersAttached', 'Inv_C12_ReadUnwatchedFails', 'Inv_C12_MatchesReferenceModel'],
     'C20': ['Inv_C20_OnePullPerImage', 'Inv_C20_ExactlyOneResponse', 'Inv_C20_NoPhantomPull', 'Inv_C20_Private', 'Inv_C20_NoLostWakeup'],
     'C13': ['Inv_C13_Deterministic', 'Inv_C13_Conservation', 'Inv_C13_LabelsAndAnnotations', 'Inv_C13_FuncAllowList'],
-    'C16': ['Inv_C16_NoDeployUnlessAdmissible', 'Inv_C16_Conditions', 'Inv_C16_NoRepull', 'Inv_C16_TemplateIsRender', 'Inv_C16_ValidPackageDeploys', 'Inv_C19_NoPanic', 'Inv_C16_ChangedSpecIsPulled'],
+    'C16': ['Inv_C16_NoDeployUnlessAdmissible', 'Inv_C16_Conditions', 'Inv_C16_NoRepull', 'Inv_C16_TemplateIsRender', 'Inv_C13_UnchangedPackageKeepsTemplate', 'Inv_C16_ValidPackageDeploys', 'Inv_C19_NoPanic', 'Inv_C16_ChangedSpecIsPulled'],
     'C17': ['Inv_C17_Verdict', 'Inv_C17_AllFailuresReported', 'Inv_C17_CELMustBeBoolean', 'Inv_C17_ObjectUnchanged', 'Inv_C17_NoPanic'],
     'C18': ['Inv_C18_OutputIsRender', 'Inv_C18_InvalidNoWrite', 'Inv_C18_Freed', 'Inv_C11_Scope', 'Inv_C19_NoPanic'],
     'C19': ['Inv_C19_NoPanic', 'Inv_C19_DomainCovered'],
@@ -470,7 +470,12 @@ CHECKS = {
                              'each package is rendered repeatedly in one process (Go randomises map iteration per range loop)'],
                 level_text='Every abstract package (all subsets of the file pool exhaustively, document attributes seeded) is concretised into real package files and rendered repeatedly through the real structural loader, RenderPackageInstance, RenderObjectSetTemplateSpec and FNV hash; TLC compares the outcome with the TLA+ function Render!Expected, checks determinism and the template function allow list.',
                 jobs=lambda tier, seed: [dict(name='render-table', module='TraceRender', shards=8 if tier == 'quick' else 14,
-                                              driver=['render-table', '-n', '300' if tier == 'quick' else '20000', '-steps', '12' if tier == 'quick' else '60', '-seed', str(seed)])]),
+                                              driver=['render-table', '-n', '300' if tier == 'quick' else '20000', '-steps', '12' if tier == 'quick' else '60', '-seed', str(seed)]),
+                                         # the environment as render input, through the real Package controller and its environment sink:
+                                         # two Packages of one image in a plain and in a hosted cluster's namespace (spec/TraceObs.tla)
+                                         dict(name='package-env', module='TraceObs', shards=4 if tier == 'quick' else 14,
+                                              invariants=['Inv_C13_UnchangedPackageKeepsTemplate', 'Inv_C16_TemplateIsRender', 'Inv_C19_NoPanic'],
+                                              driver=['package-walk', '-profile', 'env', '-mode', 'atomic', '-n', '40' if tier == 'quick' else '1500', '-steps', '80', '-seed', str(seed)])]),
     'C16': dict(level='model_checking', invariants=INV['C16'], mc=package_mc, assumptions=ASSUME + [
         'the registry is scripted (fixture packages per image reference); loader, validators, renderer, deployer and chunker are the real code',
         'reference render for Inv_C16_TemplateIsRender = the same pipeline invoked directly on the current spec in a fault-free call'],
